@@ -13,6 +13,9 @@ input (so the absolute `1e-12` test of `solve` is evaluated at the scaled values
 
 Magnitude bands (round 5; `psolve`, `pdet`, `pqr`, `pnorm`): every ENTRY carries its own exact scale, spelled as a
 second integer array of exponents and a base (`2` or `10`): value = integer * base ^ exponent.  Same model definitions.
+
+Giant norms (`gnorm <shape> <type> <ord> <axis>`): a digit array built by formula on both sides; up to `gnormLimit` elements the
+model answers, above it `native` (the harness-native reference, which is compared with the model on every smaller `gnorm` line).
 -/
 namespace Driver.C15
 open ArrModel ArrModel.C15 Driver
@@ -109,6 +112,13 @@ def handleNorm (a : Arr Rat) (ord axis keep : String) : Option String := do
   | .err e => some ("err " ++ e.name)
   | .panic => some "panic"
 
+/-- the digit array of the `gnorm` lines (values -9 … 9, zeros included), the same formula as `digit` in the harness -/
+def digitArr (shape : List Nat) : Arr Rat :=
+  ⟨(List.range shape.prod).map fun i => (((((i * 7 + i / 13 + i / 1021) % 19 : Nat) : Int) - 9 : Int) : Rat), shape⟩
+
+/-- largest `gnorm` element count the model answers itself; above it the harness-native reference (validated against these) answers -/
+def gnormLimit : Nat := 6000
+
 def square? (a : Arr Rat) : Option Nat :=
   match a.shape with
   | [r, c] => if r = c ∧ a.elems.length = r * c then some r else none
@@ -150,6 +160,9 @@ def handle (op : String) (args : List String) : Option String :=
   | "pnorm", [a, ea, base, ord, axis, keep] => do
     let a ← bandArr? base (← parseArr? a) (← parseArr? ea)
     handleNorm a ord axis keep
+  | "gnorm", [shape, _ty, ord, axis] => do
+    let shape ← parseNatList? shape
+    if shape.prod > gnormLimit then some "native" else handleNorm (digitArr shape) ord axis "none"
   | "qr", [a] => do
     let a ← parseArr? a
     some (showRes (fun l => ";".intercalate (l.map showQR)) (qrArr (toRatArr a)))
